@@ -142,8 +142,9 @@ def table_cases(aliases, n_strided, rng):
     return cases
 
 
-def gen_spectrum(rng, n, sweeps, order, grid):
-    """list of sweeps, each a list of (f, Z) in file order; all sweeps cover the same frequencies in the same direction"""
+def gen_spectrum(rng, n, sweeps, order, grid, same=False):
+    """list of sweeps, each a list of (f, Z) in file order; all sweeps cover the same frequencies in the same direction
+    (same=True: the sweeps also repeat the same impedances -- a stable sample measured several times)"""
     import numpy as np
     if grid == "whole":
         e0 = int(rng.integers(0, 4))
@@ -167,6 +168,8 @@ def gen_spectrum(rng, n, sweeps, order, grid):
                 im = float(rng.choice([-1, 1])) * float(10.0 ** rng.uniform(-6, 6))
             z.append(complex(re, im))
         out.append(list(zip(f, z)))
+    if same:
+        out = [list(out[0]) for _ in out]
     return out
 
 
@@ -288,9 +291,9 @@ INSTRUMENTS = {
 def instrument_cases(reps):
     cases = []
     for name, (ext, _, max_sweeps, comma, _) in INSTRUMENTS.items():
-        for points in (2, 3, 4):
+        for points in (1, 2, 3, 4):
             for order in ("desc", "asc"):
-                for sweeps in range(1, max_sweeps + 1):
+                for sweeps in range(1, (max_sweeps if points > 1 else 1) + 1):    # one-point sweeps have no detectable boundary (a boundary is a reversal of monotonicity)
                     for decimal in ((".", ",") if comma else (".",)):
                         for numfmt in ("e", "r", "E"):
                             for rep in range(reps):
@@ -386,7 +389,7 @@ def evaluate(c, seed, index, tmp):
     import numpy as np
     import pyimpspec
     rng = np.random.default_rng([seed, index])
-    sweeps = gen_spectrum(rng, c["points"], c["sweeps"], c["order"], c["grid"])
+    sweeps = gen_spectrum(rng, c["points"], c["sweeps"], c["order"], c["grid"], same=(c["sweeps"] > 1 and c.get("rep", 0) % 3 == 2))
     expected = sweeps
     polar = c["layout"] == "polar"
     if "alias_f" in c:
